@@ -3,7 +3,9 @@
 # and, if confirmed, store it as /verif/seeded/<PROP>-<i>/ with the verdict of my checks.
 set -u
 P=$1; I=$2; EXTRA=${3:-}
-SRC=/tmp/seed-$P/SEED/$I
+ROUND=${ROUND:-1}
+if [ "$ROUND" = 1 ]; then SEEDROOT=/tmp/seed-$P; TAG=$P-$I; else SEEDROOT=/tmp/seed$ROUND-$P; TAG=$P-r$ROUND-$I; fi
+SRC=$SEEDROOT/SEED/$I
 . /verif/bin/env.sh
 [ -f "$SRC/patch.diff" ] || { echo "no patch in $SRC"; exit 2; }
 W=$(mktemp -d /tmp/vz80-confirm.XXXXXX); rmdir "$W"
@@ -15,7 +17,7 @@ demo=$(ls "$SRC"/demo_test.go "$SRC"/demo.sh 2>/dev/null | head -1)
 # where does the demo go? default: package root
 dest="$W/zz_demo_test.go"; pkg="."
 case "$loc" in *internal/tinycpm*) dest="$W/internal/tinycpm/zz_demo_test.go"; pkg=./internal/tinycpm;; *internal/zex*) dest="$W/internal/zex/zz_demo_test.go"; pkg=./internal/zex;; *cmd/cim2bin*) dest="$W/cmd/cim2bin/zz_demo_test.go"; pkg=./cmd/cim2bin;; *cmd/cim2cas*) dest="$W/cmd/cim2cas/zz_demo_test.go"; pkg=./cmd/cim2cas;; *cmd/convert_case*) dest="$W/cmd/convert_case/zz_demo_test.go"; pkg=./cmd/convert_case;; esac
-rundemo() { if [[ "$demo" == *.sh ]]; then sed "s#/tmp/seed-$P#$W#g" "$demo" > "$W/.demo.sh"; (cd "$W" && bash "$W/.demo.sh" > "$W/.demo.log" 2>&1); r=$?; rm -rf "$W/SEED"; return $r; else cp "$demo" "$dest"; (cd "$W" && go test -vet=off -run TestSeedDemo -count=1 $pkg > "$W/.demo.log" 2>&1); r=$?; rm -f "$dest"; return $r; fi; }
+rundemo() { if [[ "$demo" == *.sh ]]; then sed "s#$SEEDROOT#$W#g" "$demo" > "$W/.demo.sh"; (cd "$W" && bash "$W/.demo.sh" > "$W/.demo.log" 2>&1); r=$?; rm -rf "$W/SEED"; return $r; else cp "$demo" "$dest"; (cd "$W" && go test -vet=off -run TestSeedDemo -count=1 $pkg > "$W/.demo.log" 2>&1); r=$?; rm -f "$dest"; return $r; fi; }
 rundemo; clean_demo=$?
 (cd "$W" && git apply "$SRC/patch.diff") || { echo "patch does not apply"; exit 3; }
 (cd "$W" && go build ./... && go test -vet=off -count=1 ./... > "$W/.suite.log" 2>&1); suite=$?
@@ -25,7 +27,7 @@ if [ $clean_demo -ne 0 ] || [ $suite -ne 0 ] || [ $mut_demo -eq 0 ]; then echo "
 ids=$P${EXTRA:+,$EXTRA}
 res=$(/verif/bin/mutant "$SRC/patch.diff" "$ids" quick 2>&1)
 echo "$res" | grep -E "^== |VIOLATION" | head -8
-D=/verif/seeded/$P-$I; mkdir -p "$D"
+D=/verif/seeded/$TAG; mkdir -p "$D"
 cp "$SRC/patch.diff" "$D/patch.diff"; cp "$demo" "$D/"; 
 python3 - "$SRC/meta.json" "$D/meta.json" "$ids" <<PY
 import json,sys,re
